@@ -65,12 +65,13 @@ def chain_expr(base, d):
 
 def node_case(rng):
     N = 7
-    present = [i for i in range(N) if rng.random() < 0.8]
+    pp = rng.choice([0.75, 0.9, 1.0])
+    present = [i for i in range(N) if rng.random() < pp]
     ents = []
     for i in present:
         attrs = {"flag": rng.random() < 0.6, "peers": [{"__entity": nuid(rng.randrange(N + 1))} for _ in range(rng.choice([0, 0, 1, 2, 3]))]}
-        if rng.random() < 0.8:
-            attrs["next"] = {"__entity": nuid((i + 1) % N if rng.random() < 0.7 else rng.randrange(N + 1))}
+        if rng.random() < 0.9:
+            attrs["next"] = {"__entity": nuid((i + 1) % N if rng.random() < 0.85 else rng.randrange(N + 1))}
         parents = [nuid(j) for j in range(i + 1, N) if rng.random() < 0.25]
         tags = {"k": rng.random() < 0.5} if rng.random() < 0.5 else {}
         ents.append({"uid": nuid(i), "attrs": attrs, "parents": parents, "tags": tags})
